@@ -71,6 +71,13 @@ def check_case(case, shard):
     init = model.config.suggested_init()
     fixed = model.config.suggested_fixed()
     data = case["data"] + list(model.config.auxdata)
+    # the caller holds a nuisance parameter, which the model leaves free, constant at a value of the caller's choosing:
+    # both fits behind the statistic are then fits under that constraint
+    hold = case.get("hold")
+    if hold:
+        init[hold[0]] = hold[1]
+        fixed[hold[0]] = True
+        shard.covered("caller_fixed", "constrained nuisance held off nominal" if init[hold[0]] != model.config.suggested_init()[hold[0]] and model.config.suggested_init()[hold[0]] == 0.0 else "bin-wise or free factor held off nominal")
     counting = case["kind"] == "counting"
     if counting:
         ss, bs = counting_arrays(spec)
@@ -114,6 +121,10 @@ def check_case(case, shard):
             probs.append(f"negative or NaN statistic {v!r}")
         if cond[poi] != mu_eff:
             probs.append(f"conditional fit holds POI at {cond[poi]!r}, tested value is {mu_eff!r}")
+        if hold:
+            for which, vec in (("conditional", cond), ("unconditional", free)):
+                if not abs(vec[hold[0]] - hold[1]) <= 1e-9:
+                    probs.append(f"{which} fit moved parameter {hold[0]} to {vec[hold[0]]!r} although the caller holds it constant at {hold[1]!r}")
         if stat in ("q", "qtilde") and muhat > mu and v != 0.0:
             probs.append(f"upper-limit statistic {v!r} != 0 although fitted POI {muhat!r} > tested {mu!r}")
         if stat == "q0" and muhat < 0 and v != 0.0:
@@ -212,6 +223,15 @@ def make_case(rng, backend, kind):
         # a tested value below zero (only reachable by the statistics that allow a negative POI bound)
         mu = gen._round(0.5 * neg_lo, 3) if neg_lo < 0 else 0.0
     case = {"kind": kind, "spec": spec, "data": data, "mu": mu, "neg_lo": neg_lo, "hi": 10.0, "backend": backend, "truth": truth, "q0_neg": rng.random() < 0.6}
+    if kind != "counting" and rng.random() < 0.35:
+        sb, sf = model.config.suggested_bounds(), model.config.suggested_fixed()
+        cands = [i for i in range(model.config.npars) if i != model.config.poi_index and not sf[i]]
+        if cands:
+            i = rng.choice(cands)
+            i0 = model.config.suggested_init()[i]
+            v = rng.choice([-0.8, 0.4, 1.1]) if i0 == 0.0 else i0 * rng.choice([0.9, 1.1])
+            if sb[i][0] < v < sb[i][1]:
+                case["hold"] = [i, v]
     if rng.random() < 0.3:
         # the same model object has served a statistic on OTHER data first
         case["previous_data"] = [float(gen.poisson_draw(rng, x * rng.choice([0.7, 1.5]))) for x in rates]
